@@ -577,3 +577,11 @@ package server
 //@ func bmpPeerDown
 //@   claims at-call
 //@   at-call bmp.NewBMPPeerDownNotification( requires (int(arg1) == bmp.BMP_PEER_DOWN_REASON_LOCAL_BGP_NOTIFICATION || int(arg1) == bmp.BMP_PEER_DOWN_REASON_REMOTE_BGP_NOTIFICATION) ==> arg2 != nil
+
+// from C16 "every route gets the verdict ...": the validation of a listing runs over the table the listing produced -
+// when the table could not be produced (a filter the table cannot evaluate) there is nothing to validate and the error
+// is reported, whether or not an RPKI cache is configured
+//@ props C16
+//@ func (*BgpServer).getAdjRib$1
+//@   claims at-call
+//@   at-call s.validateTable(rib) requires arg1 != nil
